@@ -231,9 +231,10 @@ def main(tier, replay=None):
             probs, key = predicate_script(raw, P, X, C, A, Z, consts)
             mP, mX, mC, mA, mT = m[3:8]
             diffs = []
-            if (P.split("!")[0], X, C, A) != (mP, mX, mC, mA):
-                diffs.append("model differs: ParsePkScript %s / model %s; extractAddressInfos %s / model %s; class %s / model %s; ExtractPkScriptAddrs %s / model %s"
-                             % (P, mP, X, mX, C, mC, A, mA))
+            for name, got, mod in (("utils.ParsePkScript", P.split("!")[0], mP), ("api.extractAddressInfos", X, mX),
+                                   ("txscript.GetScriptClass", C, mC), ("txscript.ExtractPkScriptAddrs", A, mA)):
+                if got != mod:
+                    diffs.append("%s gives %s, the model %s" % (name, got, mod))
             if (P.split("!")[0] if P.startswith("ok") else "none") != mT and not P.startswith("panic"):
                 diffs.append("Coq specification wallet_spec gives %s" % mT)
             if diffs:
